@@ -287,12 +287,28 @@ def dftAdjointNd (roots : Nat → Option (K × K)) (conj re : K → K) (fftw inv
   if inv then dftForwardNd roots fftw (!plus) hc rshape axes x
   else dftInverseNd roots conj re fftw (!plus) hc rshape axes x
 
-/-- `DiscreteFourierTransformBase.__init__` with `range=None`: the default range
-`uniform_discr([0]*d, shape - 1, shape, nodes_on_bdry=True)` has extent 0 in a one-point axis
-(transformed or not), hence cell volume 0, which the space's weighting rejects with `ValueError`
-(open finding F18g).  `fshape`: the range shape.  With a given range nothing is constructed. -/
+/-- `DiscreteFourierTransformBase.__init__` with `range=None`: extent of the default range
+`uniform_discr([0]*d, np.maximum(shape - 1, 1), shape, nodes_on_bdry=True)` along an axis of the range
+with `n` points (/repo fix 02139e2). -/
+def dftDefaultRangeExtent (n : Nat) : Nat := max (n - 1) 1
+
+/-- The extent before the repair, `shape - 1` (kept for the sensitivity statement only). -/
+def dftDefaultRangeExtentOld (n : Nat) : Nat := n - 1
+
+/-- Status of the construction of the default range for a given extent rule: an axis of extent 0
+(transformed or not) gives cell volume 0, which the space's weighting rejects with `ValueError`.
+`fshape`: the range shape.  With a given range nothing is constructed. -/
+def dftDefaultRangeStatusOf (extent : Nat → Nat) (fshape : List Nat) (rangeGiven : Bool) :
+    Option String :=
+  if !rangeGiven && fshape.any (fun n => extent n == 0) then some "err:value" else none
+
+/-- The code as it is. -/
 def dftDefaultRangeStatus (fshape : List Nat) (rangeGiven : Bool) : Option String :=
-  if !rangeGiven && fshape.any (· == 1) then some "err:value" else none
+  dftDefaultRangeStatusOf dftDefaultRangeExtent fshape rangeGiven
+
+/-- The code before 02139e2. -/
+def dftDefaultRangeStatusOld (fshape : List Nat) (rangeGiven : Bool) : Option String :=
+  dftDefaultRangeStatusOf dftDefaultRangeExtentOld fshape rangeGiven
 
 /-- `self.halfcomplex`: forced to `False` on complex domains. -/
 def dftHalfcomplexFlag (complexDom hcArg : Bool) : Bool := if complexDom then false else hcArg
